@@ -19,7 +19,7 @@ if TYPE_CHECKING:
 
 
 class _Processor:
-    __slots__ = ("_conn", "_processed", "actor_run")
+    __slots__ = ("_conn", "_disposing", "_processed", "actor_run")
 
     def __init__(self, _conn: Connection) -> None:
         self._conn = _conn
@@ -28,6 +28,8 @@ class _Processor:
         self.actor_run = middleware_wrapper(self._actor_run, name="actor_run")
         self.actor_run._repid_signal_emitter = self._conn.middleware.emit_signal
         self._processed = 0
+        # ids of the messages whose report to the broker (ack / nack / requeue) has been started
+        self._disposing: set[str] = set()
 
     async def get_payload(self, initial_payload: str) -> str:
         if _ArgsBucketInMessageId.check(initial_payload):
@@ -220,7 +222,17 @@ class _Processor:
             self._processed += 1
             return
 
-        await self.report_to_broker(actor, key, payload, parameters, result)
+        # the report is what disposes of the message: once started it runs to its end, even if this
+        # task is cancelled right now (a half-done report followed by a reject would dispose twice)
+        self._disposing.add(key.id_)
+        report = asyncio.ensure_future(
+            self.report_to_broker(actor, key, payload, parameters, result),
+        )
+        try:
+            await asyncio.shield(report)
+        except asyncio.CancelledError:
+            await asyncio.wait({report})
+            raise
         self._processed += 1
         await self.set_result_bucket(parameters.result, result)
 
